@@ -353,3 +353,27 @@ def iteration_protocol(ctx: Ctx, rule: str, clsname: str):
            by=("except EndOfStream: raise StopAsyncIteration",))
     s = ctx.sites(ai, "return self")
     ctx.ob(rule, ai, f"{clsname}.__aiter__ iterates the stream itself", len(s) == 1, detail="" if s else "__aiter__ does not return self", by=("return self",))
+
+
+# ----------------------------------------------------------------------------- is_anyio_cancellation is total and walks only CancelledErrors
+def classifier_total(ctx: Ctx, rule: str):
+    """is_anyio_cancellation() runs inside CancelScope.__exit__ and TaskGroup.__aexit__: it must classify *every* CancelledError
+    without raising (a native one can carry no message, or any object as message) and must follow __context__ only from one
+    CancelledError to the next"""
+    isa = ctx.fn("is_anyio_cancellation", A)
+    n = 0
+    for call, env in ctx.sites(isa, "$X.startswith($P)"):
+        x = env["X"]
+        if isinstance(x, ast.Subscript):
+            n += 1
+            base = u(x.value)
+            ctx.require_at(rule, isa, call, [[base, f"isinstance({u(x)}, str)"]],
+                           instance="the prefix test is reached only for a non-empty args tuple whose first element is a string (else it raises inside __exit__/__aexit__)",
+                           what="startswith")
+    ctx.need(rule, isa, "prefix test `exc.args[0].startswith(...)`", n, 1)
+    adv = ctx.sites(isa, "$X = $X.__context__")
+    ctx.need(rule, isa, "walk along `__context__`", len(adv), 1)
+    for st, env in adv:
+        xv = u(env["X"])
+        ctx.require_at(rule, isa, st, [[f"isinstance({xv}.__context__, CancelledError)"]],
+                       instance="the walk follows __context__ only from one CancelledError to another (an ordinary exception in between ends it)", what="advance")
